@@ -8,6 +8,7 @@ One case = one feature fitted by one class:
 Observable: values_orders[f] (list + content); transform(X_train)[f].value_counts() for the
 python-side oracle (the property statement checked by plain counting)."""
 import math
+import re
 
 import common as C
 from props.base import NAN, Prop, chunks, dec, enc
@@ -201,7 +202,11 @@ class C09(Prop):
                 "C09_quantitative_checker_predicate_holds_on_model",
                 "C09_quantile_bucket_bound_in_leaf", "C09_quantile_bucket_bound",
                 "C09_quantile_bucket_bound_2_5", "C09_quantile_bucket_bound_min_freq_refuted",
-                "C09_quantile_bucket_bound_min_freq_partial"]
+                "C09_quantile_bucket_bound_min_freq_partial",
+                "C09_quantile_float_premises", "C09_quantile_bucket_bound_binary64",
+                "C09_quantile_bucket_bound_2_5_binary64",
+                "C09_quantile_bucket_bound_min_freq_partial_binary64",
+                "C09_quantile_bucket_bound_never_fails"]
     rule = ("one feature fitted by ContinuousDiscretizer / QuantitativeDiscretizer / "
             "QualitativeDiscretizer (ordinal or categorical) / Discretizer on 30-600 rows: numeric "
             "columns continuous, discrete, spiked, tied around the over-representation threshold "
@@ -229,7 +234,20 @@ class C09(Prop):
 
     # ---- generation -----------------------------------------------------------------------
     def corpus(self):
-        return [o1_case("ContinuousDiscretizer"), o1_case("QuantitativeDiscretizer")]
+        import glob
+        import json
+        import os
+        cs = [o1_case("ContinuousDiscretizer"), o1_case("QuantitativeDiscretizer")]
+        for f in sorted(glob.glob(os.path.join(C.VERIF, "corpus", "findings", "*_c09_*.json"))):
+            cs.append(json.load(open(f))["case"])
+        # min_freq where q = round(1 / min_freq) is larger than 1 / min_freq: the bucket bound 2.25/q proved
+        # on the model exceeds 2.5 * min_freq (q = 3: (0.2857, 0.3), q = 4: (0.2222, 0.225))
+        for mf, counts, nan in ((0.29, [39, 10, 39, 12], 20), (0.295, [39, 10, 39, 12], 20), (0.224, [29, 8, 29, 8, 29, 17], 0)):
+            xs = [float(v + 1) for v, c in enumerate(counts) for _ in range(c)] + [NAN] * nan
+            cs.append({"kind": "cont", "cls": "ContinuousDiscretizer", "min_freq": float(mf).hex(), "binary": True,
+                       "shape": "q-rounds-up", "x": [enc(x) for x in xs], "y": [i % 2 for i in range(len(xs))],
+                       "order": None, "extra": False})
+        return cs
 
     def generate(self, rng, tier):
         per_kind = 100 if tier == "quick" else 2000
@@ -472,6 +490,16 @@ class C09(Prop):
 
     def finding_signatures(self, case, out, msg):
         sigs = []
+        m = re.search(r"holds (\d+)/(\d+) rows > 2\.5\*min_freq", msg)
+        if m:
+            # the code works in units of 1/q, q = round(1/min_freq): Properties/C09.v proves
+            # 4*q*rows <= 9*len_df + 8*q for every bucket free of over-represented values
+            # (C09_quantile_bucket_bound_binary64).  A bucket within THAT bound but above 2.5*min_freq is the
+            # known finding; a bucket above the proved bound is a new violation
+            c, n = int(m.group(1)), int(m.group(2))
+            q = round(1 / float.fromhex(case["min_freq"]))
+            if 4 * q * c <= 9 * n + 8 * q:
+                sigs.append("bucket_bound_holds_in_units_of_rounded_q_only")
         if case["kind"] in ("cont", "quant") and out.get("raw"):
             raw = [float.fromhex(h) for h in out["raw"]]
             if len(set(raw)) < len(raw):
